@@ -68,6 +68,37 @@ CHECKS = {
             "ordering, century-unique symbols, one discontinuation event per contract at its expiry.",
             "Exhaustive for single contracts; chains on a lattice of spans.",
             "DESIGN 4/C19"),
+    "C03": ("model_checking",
+            "every reachable broker state (ledger BFS) x target menu: one real Broker.rebalance transition each, checked against exact target arithmetic",
+            "From every state reached by the ledger BFS within 2-3 (quick) / 3-4 (thorough) operations (long, short, leveraged, mixed spot/margined holdings, "
+            "6 universes x fee schedules), one Broker.rebalance per element of 8 weight targets (negative, >1, zero) and 4 contract targets: position x multiplier x "
+            "execution-side quote = w x NLV before trading, untargeted holdings closed, contract targets exact; when the market is frictionless, weights = w, NLV "
+            "unchanged and an immediate second rebalance trades < 1e-9 NLV.",
+            "Threshold 0 only (C12 covers thresholds); rebalances whose own trades ruin the account excluded (C09).",
+            "DESIGN 4/C03"),
+    "C06": ("model_checking",
+            "explicit-state BFS over accrual/query/rebalance histories on a real Broker vs a 50-digit closed form; all 2^(n-1) compositions of an interval",
+            "Balances {+4096, -1024, 0} x with/without a margined position x 5 rates x 3 markups; histories of <= 4 (quick) / 6 (thorough) operations over "
+            "{accrue/query +1s,+1d,+365d,+10y, same-instant accrue/query, backwards accrual, empty rebalance}: amount = balance x ((1+r-/+m)^(dt/365d)-1) with the "
+            "no-charge floor, queries change nothing, same-instant adds nothing, earlier time rejected with state unchanged, margin earns nothing; every cut "
+            "pattern of 6/8 atomic units (1s, 1d, 73d, 5y) gives the single-accrual balance.",
+            "Constant rate within a history; first-ever query starting the clock left open.",
+            "DESIGN 4/C06"),
+    "C13": ("fault_enumeration",
+            "fault enumeration: every reachable broker state x every quote-loss assignment x valuation/weights/rebalance probes",
+            "Every state of the ledger BFS (depth 2 quick / 3 thorough) x all 24 assignments of {none, bid NaN, ask NaN, both NaN, discontinued then re-quoted} to "
+            "the two traded contracts, plus a never-quoted third contract, x {valuation, weights, 8 rebalance targets}: valuation raises iff a non-zero position "
+            "lost its liquidation side (never 0/NaN), flat positions never need a quote, a rebalance needing a missing execution quote raises and leaves positions, "
+            "track record and cash+margins unchanged, a successful one has finite trades and a consistent ledger, dead books stay dead.",
+            "Interest rate 0; a trade missing only its non-execution side may or may not fail.",
+            "DESIGN 4/C13"),
+    "C14": ("model_checking",
+            "explicit-state BFS over a real Exchange (quotes, discontinuations, clock moves over asset/future/chain keys) with a dict reference in lock-step",
+            "All histories of <= 4 (quick) / 5 (thorough) operations over 23 operations {quote one of 3 (bid,ask) pairs on asset A, asset B, future F1, F2 or the "
+            "chain key; discontinue any of them; move the contract clock before/at/after F1's last trading instant}; after every transition every query form "
+            "(bid/ask/mid/spread, acq/liq price for +1/-1/0, vector forms, is_alive, full history) for 7 keys incl. string keys is compared with the reference.",
+            "One timestamp per quote; history kept in the state key as length + last two entries.",
+            "DESIGN 4/C14"),
 }
 
 ALL = ["C%02d" % i for i in range(1, 20)]
